@@ -1,7 +1,7 @@
 #!/bin/bash
 # usage: try_patch.sh <patch.diff> [props...]   — applies the patch to /repo, runs the checks, restores /repo
 set -u
-P="$1"; shift
+P="$(readlink -f "$1")"; shift
 PROPS="${*:-C01 C02 C03 C04 C05 C06 C07 C08 C09 C10 C11 C12 C13 C14 C15 C16 C17 C18 C19}"
 export GOFLAGS=-mod=mod GOPROXY=off GOSUMDB=off GOTOOLCHAIN=local
 cd /repo || exit 2
